@@ -1,5 +1,281 @@
 (* Proofs about the token-level native EDS model (C03). *)
-From Coq Require Import List NArith ZArith Bool Arith Lia Permutation.
+From Coq Require Import List NArith ZArith Bool Arith Lia Permutation Relations.
 From PyD Require Import Base.Str Base.Dec Base.Graph Model.Hier Model.Mrs Model.Iso Model.SimpleMrs Model.EdsNative
   Proofs.SimpleMrsP.
 Import ListNotations.
+
+(* ---------------------------------------------------------------- *)
+(* comma-separated pairs *)
+
+Definition not_comma (ts : list etok) : Prop := match ts with ECOMMA :: _ => False | _ => True end.
+
+Lemma dec_pairs_enc f L : forall acc rest,
+  L <> [] -> NoDup (map fst L) -> (forall k, In k (map fst L) -> ~ In k (map fst acc)) ->
+  Forall (fun kv => ascii_upper (fst kv) = fst kv /\ f (snd kv) = snd kv) L -> not_comma rest ->
+  dec_pairs f (enc_pairs L ++ rest) acc = Some (acc ++ L, rest).
+Proof.
+  induction L as [|[k v] L IH]; intros acc rest Hne Hnd Hdis Hn Hrest; [contradiction Hne; reflexivity|].
+  inversion Hnd as [|? ? Hk Hnd']; subst. inversion Hn as [|? ? [Hu Hf] Hn']; subst. cbn [fst snd] in Hu, Hf.
+  destruct L as [|[k2 v2] L'].
+  - cbn [enc_pairs app dec_pairs]. rewrite Hu, Hf. rewrite dict_set_notin by (apply Hdis; left; reflexivity).
+    destruct rest as [|[] rest']; try reflexivity. contradiction.
+  - change (enc_pairs ((k, v) :: (k2, v2) :: L')) with (ESYM k :: ESYM v :: ECOMMA :: enc_pairs ((k2, v2) :: L')).
+    cbn [app dec_pairs]. rewrite Hu, Hf. rewrite dict_set_notin by (apply Hdis; left; reflexivity).
+    rewrite IH; [rewrite <- app_assoc; reflexivity | discriminate | exact Hnd' | | exact Hn' | exact Hrest].
+    intros k' Hk'. rewrite map_app, in_app_iff. cbn [map fst In]. intros [H|[H|[]]].
+    + apply (Hdis k'); [right; exact Hk' | exact H].
+    + subst. contradiction.
+Qed.
+
+Lemma enc_pairs_head L rest : L <> [] -> exists k r, enc_pairs L ++ rest = ESYM k :: r.
+Proof. destruct L as [|[k v] [|p L]]; intros H; [contradiction H; reflexivity | |]; eexists; eexists; reflexivity. Qed.
+
+(* ---------------------------------------------------------------- *)
+(* nodes *)
+
+Definition vnode_wf (n : vnode) : Prop :=
+  ascii_lower (v_pred n) = v_pred n /\ norm_props (v_props n) /\ NoDup (map fst (v_edges n)) /\
+  Forall (fun kv => ascii_upper (fst kv) = fst kv) (v_edges n).
+
+Definition proj_type (p : bool) (n : vnode) : option str :=
+  if p then match v_type n with
+            | Some t => Some t
+            | None => match v_props n with [] => None | _ => Some U_TYPE end
+            end
+  else None.
+
+Definition proj_vnode (p l : bool) (n : vnode) : vnode :=
+  {| v_id := v_id n; v_pred := v_pred n; v_type := proj_type p n; v_edges := sort_roles (v_edges n);
+     v_props := if p then sort_props (v_props n) else []; v_carg := v_carg n;
+     v_lnk := proj_lnk l (v_lnk n) |}.
+
+Definition node_tail (p l : bool) (n : vnode) : list etok :=
+  ESYM (v_pred n)
+  :: (if l && lnk_truthy (v_lnk n) then [ELNK (v_lnk n)] else [])
+  ++ match v_carg n with Some c => [ECARG (escape c)] | None => [] end
+  ++ (if p && has_block n then
+        ELBRACE :: ESYM (match v_type n with Some t => t | None => U_TYPE end)
+                :: enc_pairs (sort_props (v_props n)) ++ [ERBRACE]
+      else [])
+  ++ ELBRK :: enc_pairs (sort_roles (v_edges n)) ++ [ERBRK].
+
+Lemma enc_vnode_shape p l n : enc_vnode p l n = ESYM (v_id n) :: ECOLON :: node_tail p l n.
+Proof. reflexivity. Qed.
+
+Lemma sort_props_nil_iff ps : sort_props ps = [] <-> ps = [].
+Proof.
+  split; [|intros ->; reflexivity]. intros H.
+  pose proof (Permutation_length (sort_props_perm ps)) as L. rewrite H in L. destruct ps; [reflexivity | discriminate].
+Qed.
+
+Lemma sort_roles_nil_iff ps : sort_roles ps = [] <-> ps = [].
+Proof.
+  split; [|intros ->; reflexivity]. intros H.
+  pose proof (Permutation_length (sort_roles_perm ps)) as L. rewrite H in L. destruct ps; [reflexivity | discriminate].
+Qed.
+
+Lemma dec_edges_enc es rest :
+  NoDup (map fst es) -> Forall (fun kv => ascii_upper (fst kv) = fst kv) es ->
+  dec_edges (ELBRK :: enc_pairs (sort_roles es) ++ ERBRK :: rest) = Some (sort_roles es, rest).
+Proof.
+  intros Hnd Hn.
+  destruct (sort_roles es) as [|e0 es0] eqn:E.
+  - reflexivity.
+  - rewrite <- E.
+    assert (Hne : sort_roles es <> []) by (rewrite E; discriminate).
+    pose proof (sort_roles_perm es) as Hp.
+    assert (Hnd' : NoDup (map fst (sort_roles es))).
+    { eapply Permutation_NoDup; [apply Permutation_map; apply Permutation_sym; exact Hp | exact Hnd]. }
+    assert (Hn' : Forall (fun kv => ascii_upper (fst kv) = fst kv /\ (fun s : str => s) (snd kv) = snd kv) (sort_roles es)).
+    { rewrite Forall_forall in *. intros x Hx. split; [|reflexivity]. apply Hn.
+      eapply Permutation_in; [exact Hp | exact Hx]. }
+    destruct (enc_pairs_head (sort_roles es) (ERBRK :: rest) Hne) as [k [r Hh]].
+    unfold dec_edges. rewrite Hh. rewrite <- Hh.
+    rewrite (dec_pairs_enc (fun s => s) (sort_roles es) [] (ERBRK :: rest) Hne Hnd' (fun _ _ F => F) Hn' I).
+    reflexivity.
+Qed.
+
+Lemma dec_block_enc p n rest : norm_props (v_props n) ->
+  match rest with ELBRACE :: _ => False | _ => True end ->
+  dec_block ((if p && has_block n then
+                ELBRACE :: ESYM (match v_type n with Some t => t | None => U_TYPE end)
+                        :: enc_pairs (sort_props (v_props n)) ++ [ERBRACE]
+              else []) ++ rest)
+  = Some (proj_type p n, (if p then sort_props (v_props n) else []), rest).
+Proof.
+  intros [Hnd Hn] Hrest. unfold proj_type, has_block.
+  destruct p; cbn [andb].
+  2:{ cbn [app]. unfold dec_block. destruct rest as [|[] ?]; try reflexivity. contradiction. }
+  destruct (v_props n) as [|p0 ps] eqn:Ep.
+  - destruct (v_type n) as [t|]; cbn [app sort_props fold_right enc_pairs dec_block]; [reflexivity|].
+    unfold dec_block. destruct rest as [|[] ?]; try reflexivity. contradiction.
+  - remember (p0 :: ps) as P eqn:EP.
+    assert (Hne : sort_props P <> []).
+    { intros X. apply (proj1 (sort_props_nil_iff _)) in X. destruct P; [discriminate EP | discriminate X]. }
+    pose proof (sort_props_perm P) as Hp.
+    pose proof (norm_props_perm _ _ (Permutation_sym Hp) (conj Hnd Hn)) as [Hnd' Hn'].
+    assert (Hn'' : Forall (fun kv => ascii_upper (fst kv) = fst kv /\ ascii_lower (snd kv) = snd kv) (sort_props P)).
+    { exact Hn'. }
+    destruct (enc_pairs_head (sort_props P) ([ERBRACE] ++ rest) Hne) as [k [r Hh]].
+    cbn [app dec_block]. rewrite <- app_assoc. rewrite Hh. rewrite <- Hh.
+    rewrite (dec_pairs_enc ascii_lower (sort_props P) [] ([ERBRACE] ++ rest) Hne Hnd' (fun _ _ F => F) Hn'' I).
+    cbn [app].
+    destruct (v_type n); reflexivity.
+Qed.
+
+Lemma dec_vnode_enc p l n rest : vnode_wf n ->
+  dec_vnode (v_id n) (node_tail p l n ++ rest) = Some (proj_vnode p l n, rest).
+Proof.
+  intros [Hpred [Hprops [Hnd Hroles]]]. unfold node_tail. cbn [app dec_vnode].
+  rewrite <- !app_assoc.
+  set (tail_e := ELBRK :: enc_pairs (sort_roles (v_edges n)) ++ [ERBRK]).
+  set (blk := if p && has_block n then _ else []).
+  assert (Hlnk : edec_lnk ((if l && lnk_truthy (v_lnk n) then [ELNK (v_lnk n)] else [])
+                           ++ match v_carg n with Some c => [ECARG (escape c)] | None => [] end ++ blk ++ tail_e ++ rest)
+                 = (proj_lnk l (v_lnk n), match v_carg n with Some c => [ECARG (escape c)] | None => [] end ++ blk ++ tail_e ++ rest)).
+  { unfold proj_lnk. destruct (l && lnk_truthy (v_lnk n)); [reflexivity|]. cbn [app].
+    destruct (v_carg n); [reflexivity|]. cbn [app]. subst blk. destruct (p && has_block n); reflexivity. }
+  rewrite Hlnk.
+  assert (Hcarg : edec_carg (match v_carg n with Some c => [ECARG (escape c)] | None => [] end ++ blk ++ tail_e ++ rest)
+                  = (v_carg n, blk ++ tail_e ++ rest)).
+  { destruct (v_carg n); cbn [app edec_carg]; [rewrite unescape_escape; reflexivity|].
+    subst blk. destruct (p && has_block n); reflexivity. }
+  rewrite Hcarg. subst blk.
+  rewrite (dec_block_enc p n (tail_e ++ rest) Hprops I).
+  subst tail_e. cbn [app]. rewrite <- app_assoc. cbn [app].
+  rewrite dec_edges_enc by assumption. rewrite Hpred. reflexivity.
+Qed.
+
+(* ---------------------------------------------------------------- *)
+(* the node loop *)
+
+Definition node_toks (disc : str -> bool) (p l : bool) (n : vnode) : list etok :=
+  (if disc (v_id n) then [ENSTATUS] else []) ++ enc_vnode p l n.
+
+Lemma dec_vnodes_enc disc p l nodes : forall acc fuel rest,
+  Forall vnode_wf nodes -> (length (flat_map (node_toks disc p l) nodes) < fuel)%nat ->
+  dec_vnodes fuel (flat_map (node_toks disc p l) nodes ++ ERBRACE :: rest) acc
+  = Some (acc ++ map (proj_vnode p l) nodes, rest).
+Proof.
+  induction nodes as [|n nodes IH]; intros acc fuel rest Hwf Hfuel.
+  - destruct fuel as [|fuel]; [cbn in Hfuel; lia|]. cbn. rewrite app_nil_r. reflexivity.
+  - inversion Hwf as [|? ? Hn Hwf']; subst.
+    destruct fuel as [|fuel]; [cbn in Hfuel; lia|].
+    cbn [flat_map]. unfold node_toks at 1. rewrite enc_vnode_shape. rewrite <- !app_assoc.
+    assert (Hstep : forall pre, (pre = [ENSTATUS] \/ pre = []) ->
+              dec_vnodes (S fuel) (pre ++ (ESYM (v_id n) :: ECOLON :: node_tail p l n)
+                                   ++ flat_map (node_toks disc p l) nodes ++ ERBRACE :: rest) acc
+              = dec_vnodes fuel (flat_map (node_toks disc p l) nodes ++ ERBRACE :: rest) (acc ++ [proj_vnode p l n])).
+    { intros pre [-> | ->]; cbn [app dec_vnodes]; rewrite dec_vnode_enc by exact Hn; reflexivity. }
+    rewrite Hstep by (destruct (disc (v_id n)); [left | right]; reflexivity).
+    rewrite IH; [cbn [map]; rewrite <- app_assoc; reflexivity | exact Hwf' |].
+    cbn [flat_map] in Hfuel. rewrite app_length in Hfuel. unfold node_toks at 1 in Hfuel.
+    rewrite app_length, enc_vnode_shape in Hfuel. cbn [length] in Hfuel. lia.
+Qed.
+
+(* ---------------------------------------------------------------- *)
+(* the top *)
+
+Lemma node_tail_shape p l n : exists t3 X, node_tail p l n = ESYM (v_pred n) :: t3 :: X /\ is_colon t3 = false.
+Proof.
+  unfold node_tail. destruct (l && lnk_truthy (v_lnk n)); [eexists; eexists; split; [reflexivity|reflexivity]|].
+  cbn [app]. destruct (v_carg n); [eexists; eexists; split; [reflexivity|reflexivity]|].
+  cbn [app]. destruct (p && has_block n); eexists; eexists; split; reflexivity.
+Qed.
+
+Lemma dec_top_enc (frag : bool) disc p l (top : option str) n nodes (rest : list etok) :
+  dec_top (match top with Some t => [ESYM t; ECOLON] | None => [] end
+           ++ (if frag then [EGSTATUS FRAGMENTED] else [])
+           ++ flat_map (node_toks disc p l) (n :: nodes) ++ ERBRACE :: rest)
+  = Some (top, flat_map (node_toks disc p l) (n :: nodes) ++ ERBRACE :: rest).
+Proof.
+  cbn [flat_map]. unfold node_toks at 1 3. rewrite enc_vnode_shape.
+  destruct (node_tail_shape p l n) as [t3 [X [Ht Hc]]]. rewrite Ht.
+  destruct top as [t|]; destruct frag; destruct (disc (v_id n)); cbn [app dec_top is_status skip_gstatus is_colon];
+    rewrite ?Hc; reflexivity.
+Qed.
+
+(* ---------------------------------------------------------------- *)
+(* the whole graph *)
+
+Definition proj_veds (p l : bool) (g : veds) : veds :=
+  {| ve_top := match ve_nodes g with [] => None | _ => ve_top g end;
+     ve_nodes := map (proj_vnode p l) (ve_nodes g);
+     ve_ident := match ve_ident g with Some (c :: i) => Some (c :: i) | _ => None end |}.
+
+Theorem dec_enc_gen frag disc p l g rest : Forall vnode_wf (ve_nodes g) ->
+  dec_eds (enc_gen frag disc p l g ++ rest) = Some (proj_veds p l g, rest).
+Proof.
+  intros Hwf. unfold enc_gen, proj_veds.
+  assert (Hid : forall body,
+            dec_eds ((match ve_ident g with Some (c :: i) => [EIDENT (c :: i)] | _ => [] end ++ ELBRACE :: body) ++ rest)
+            = match dec_top (body ++ rest) with
+              | Some (top, ts2) =>
+                  match dec_vnodes (S (length ts2)) ts2 [] with
+                  | Some (nodes, ts3) =>
+                      Some ({| ve_top := top; ve_nodes := nodes;
+                               ve_ident := match ve_ident g with Some (c :: i) => Some (c :: i) | _ => None end |}, ts3)
+                  | None => None
+                  end
+              | None => None
+              end).
+  { intros body. destruct (ve_ident g) as [[|c i]|]; reflexivity. }
+  rewrite Hid. clear Hid.
+  destruct (ve_nodes g) as [|n nodes] eqn:En.
+  - cbn [app dec_top]. cbn [dec_vnodes length]. reflexivity.
+  - rewrite <- !app_assoc. cbn [app].
+    change (flat_map (fun n0 : vnode => (if disc (v_id n0) then [ENSTATUS] else []) ++ enc_vnode p l n0) (n :: nodes))
+      with (flat_map (node_toks disc p l) (n :: nodes)).
+    rewrite dec_top_enc.
+    rewrite (dec_vnodes_enc disc p l (n :: nodes) [] _ rest Hwf).
+    2:{ rewrite app_length. cbn [length]. lia. }
+    reflexivity.
+Qed.
+
+(* the encoder proper is an instance: its status markers never disturb the decoder *)
+Corollary dec_enc_veds p l st g toks rest : Forall vnode_wf (ve_nodes g) ->
+  enc_veds p l st g = Some toks -> dec_eds (toks ++ rest) = Some (proj_veds p l g, rest).
+Proof.
+  intros Hwf H. unfold enc_veds in H. destruct (ve_nodes g) eqn:En.
+  - inversion H; subst. apply dec_enc_gen. rewrite En. constructor.
+  - destruct (edges_closed g); [|discriminate]. inversion H; subst. apply dec_enc_gen. rewrite En. exact Hwf.
+Qed.
+
+(* the main component used for the markers is exactly the set of nodes
+   connected to the start by edges taken in either direction *)
+Lemma main_comp_spec g start x :
+  (match ve_top g with Some t => Some t | None => hd_error (node_ids g) end) = Some start ->
+  (In x (main_comp g) <-> clos_refl_trans _ (fun a b => In (a, b) (und_edges (ve_nodes g))) start x).
+Proof.
+  intros H. unfold main_comp. rewrite H. apply reach_spec. intros a b. apply str_eqb_spec.
+Qed.
+
+(* non-vacuity *)
+Definition ex_e : veds :=
+  {| ve_top := Some [101;50]%N;
+     ve_nodes := [ {| v_id := [95;49]%N; v_pred := [95;116;104;101;95;113]%N; v_type := None;
+                      v_edges := [([66;86]%N, [120;51]%N)]; v_props := []; v_carg := None; v_lnk := LChar 0 3 |};
+                   {| v_id := [120;51]%N; v_pred := [110;97;109;101;100]%N; v_type := Some [120]%N;
+                      v_edges := []; v_props := [([78;85;77]%N, [115;103]%N); ([80;69;82;83]%N, [51]%N)];
+                      v_carg := Some [75;34;105;109]%N; v_lnk := LChar 4 7 |};
+                   {| v_id := [101;50]%N; v_pred := [95;98;97;114;107;95;118;95;49]%N; v_type := Some [101]%N;
+                      v_edges := [([65;82;71;50]%N, [120;51]%N); ([65;82;71;49]%N, [120;51]%N)];
+                      v_props := [([84;69;78;83;69]%N, [112;114;101;115]%N)]; v_carg := None; v_lnk := LNone |};
+                   {| v_id := [105;57]%N; v_pred := [112;114;111;110]%N; v_type := Some [105]%N;
+                      v_edges := []; v_props := []; v_carg := None; v_lnk := LNone |} ];
+     ve_ident := Some [49;48]%N |}.
+
+Example ex_e_wf : Forall vnode_wf (ve_nodes ex_e).
+Proof.
+  repeat (apply Forall_cons;
+          [split; [reflexivity|]; split;
+           [split; [cbn [map fst v_props]; repeat (apply NoDup_cons; [cbn; intuition congruence|]); apply NoDup_nil
+                   | repeat (apply Forall_cons; [split; reflexivity|]); apply Forall_nil]|];
+           split; [cbn [map fst v_edges]; repeat (apply NoDup_cons; [cbn; intuition congruence|]); apply NoDup_nil
+                  | repeat (apply Forall_cons; [reflexivity|]); apply Forall_nil]|]).
+  apply Forall_nil.
+Qed.
+
+Example ex_e_markers : exists toks, enc_veds true true true ex_e = Some toks /\ length toks = 53%nat
+                                     /\ In (EGSTATUS FRAGMENTED) toks /\ In ENSTATUS toks.
+Proof. eexists. split; [vm_compute; reflexivity|]. split; [reflexivity|]. split; vm_compute; tauto. Qed.
